@@ -28,8 +28,7 @@ Print Assumptions C04_client_oneway_consumes_no_reply.
 
 (* tie: the functions this property's model describes by hand (not by translation) still have the pinned text; an
    edit to one of them breaks this obligation and sends the check searching for a failing input *)
-From VL Require Import ShapeFacts.
 From VLG Require Import ShapeGen.
 Theorem C04_modelled_code_is_the_pinned_text : shapes_for_C04 = true.
-Proof. exact shapes_C04_ok. Qed.
+Proof. vm_compute. reflexivity. Qed.
 Print Assumptions C04_modelled_code_is_the_pinned_text.
